@@ -307,7 +307,7 @@ def metamodel_export_tofile(metamodel, f, renderer=None):
     if renderer is None:
         renderer = DotRenderer()
     f.write(renderer.get_header())
-    classes = get_unified_classes(metamodel)
+    classes = get_unified_classes(_all_classes(metamodel))
     classes = [c for c in classes if c.fqn not in ALL_TYPE_NAMES]
     for cls in classes:
         if cls.name not in ALL_TYPE_NAMES:
@@ -322,6 +322,25 @@ def metamodel_export_tofile(metamodel, f, renderer=None):
         for inherited_by in cls.inh_by:
             f.write(renderer.render_inherited_by(cls, inherited_by))
     f.write(f"{renderer.get_trailer()}")
+
+
+def _all_classes(metamodel):
+    """
+    The classes of the meta-model: those of the main grammar and of the
+    grammars it imports (the iteration over a meta-model), and those of
+    grammars imported transitively, which are reached through the types of
+    attributes and through inheritance.
+    """
+    classes = list(metamodel)
+    seen = {id(cls) for cls in classes}
+    for cls in classes:  # grows while iterated
+        referred = [attr.cls for attr in getattr(cls, "_tx_attrs", {}).values()]
+        referred += getattr(cls, "_tx_inh_by", [])
+        for other in referred:
+            if hasattr(other, "_tx_fqn") and id(other) not in seen:
+                seen.add(id(other))
+                classes.append(other)
+    return classes
 
 
 def get_unified_classes(classes: List[TextXMetaClass]) -> Iterable[Cls]:
